@@ -1103,16 +1103,6 @@ impl Value {
         unsafe { &*(self.0 as *const ChannelObject) }
     }
 
-    unsafe fn get_channel_mut<'a>(&self, _vm: &mut VmGreenThread) -> &'a mut ChannelObject
-    where
-        Self: Sized,
-    {
-        self.check_type(_vm, ValueTag::Channel);
-        #[cfg(feature = "verif")]
-        verif::check_live(self.0, "get_channel_mut");
-        unsafe { &mut *(self.0 as *mut ChannelObject) }
-    }
-
     fn get_variant<'a>(&self, _vm: &VmGreenThread) -> &'a EnumObject
     where
         Self: Sized,
@@ -1464,11 +1454,82 @@ impl ArrayObject {
     }
 }
 
+/// A value in flight through a channel. It is a snapshot taken when the value is written and
+/// does not point into any task's heap, so it stays valid (and unchanged) whatever the writer
+/// does afterwards: mutate the object it sent, collect it, or finish.
+enum Message {
+    Scalar(Value),
+    String(String),
+    Array(Vec<Message>),
+    Struct(Vec<Message>),
+    Variant(u16, Box<Message>),
+    Channel(ChannelQueue),
+}
+
+type ChannelQueue = Arc<Mutex<VecDeque<Message>>>;
+
+impl Message {
+    fn new(val: Value, vm: &mut VmGreenThread) -> Message {
+        match val.1 {
+            ValueTag::Int | ValueTag::Float | ValueTag::Bool | ValueTag::Addr => {
+                Message::Scalar(val)
+            }
+            ValueTag::String => Message::String(val.view_string(vm).to_string()),
+            ValueTag::Array => {
+                let mut elems = vec![];
+                for elem in val.get_array(vm).data.iter() {
+                    elems.push(Message::new(*elem, vm));
+                }
+                Message::Array(elems)
+            }
+            ValueTag::Struct => {
+                let mut fields = vec![];
+                for field in val.get_struct(vm).get_fields() {
+                    fields.push(Message::new(*field, vm));
+                }
+                Message::Struct(fields)
+            }
+            ValueTag::Variant => {
+                let variant = val.get_variant(vm);
+                Message::Variant(variant.tag, Box::new(Message::new(variant.val, vm)))
+            }
+            ValueTag::Channel => Message::Channel(unsafe { val.get_channel(vm) }.data.clone()),
+        }
+    }
+
+    /// Rebuilds the value in `vm`'s heap.
+    fn into_value(self, vm: &mut VmGreenThread) -> Value {
+        match self {
+            Message::Scalar(val) => val,
+            Message::String(s) => StringObject::new(s, vm).into(),
+            Message::Array(elems) => {
+                let mut vals = vec![];
+                for elem in elems {
+                    vals.push(elem.into_value(vm));
+                }
+                ArrayObject::new(vals, vm).into()
+            }
+            Message::Struct(fields) => {
+                let mut vals = vec![];
+                for field in fields {
+                    vals.push(field.into_value(vm));
+                }
+                StructObject::new(vals, vm).into()
+            }
+            Message::Variant(tag, val) => {
+                let val = val.into_value(vm);
+                EnumObject::new(tag, val, vm).into()
+            }
+            Message::Channel(data) => ChannelObject::new_with_data(vm, data).into(),
+        }
+    }
+}
+
 #[repr(C)]
 struct ChannelObject {
     header: ObjectHeader,
     // TODO: instead of Arc Mutex VecDeque there's probably something much better
-    data: Arc<Mutex<VecDeque<Value>>>,
+    data: ChannelQueue,
 }
 
 impl ChannelObject {
@@ -1476,10 +1537,7 @@ impl ChannelObject {
         ChannelObject::new_with_data(vm, Arc::new(Mutex::new(VecDeque::new())))
     }
 
-    fn new_with_data(
-        vm: &mut VmGreenThread,
-        data: Arc<Mutex<VecDeque<Value>>>,
-    ) -> *mut ChannelObject {
+    fn new_with_data(vm: &mut VmGreenThread, data: ChannelQueue) -> *mut ChannelObject {
         let header = ObjectHeader {
             kind: ObjectKind::Channel,
             visited: match &vm.gc_state {
@@ -1503,23 +1561,19 @@ impl ChannelObject {
         chan
     }
 
-    fn read_value(&self) -> Option<Value> {
+    fn read_value(&self) -> Option<Message> {
         let mut data = self.data.lock().unwrap();
         // TODO: it would be better to put this thread to sleep instead of constantly trying and failing to read from the channel
         data.pop_front()
     }
 
-    fn write_value(&self, val: Value) {
+    fn write_value(&self, val: Message) {
         let mut data = self.data.lock().unwrap();
         data.push_back(val);
     }
 
     fn copy(&self, vm: &mut VmGreenThread) -> Value {
         ChannelObject::new_with_data(vm, self.data.clone()).into()
-    }
-
-    fn header_ptr(&mut self) -> *mut ObjectHeader {
-        self as *mut Self as *mut ObjectHeader
     }
 
     fn nbytes(&self) -> usize {
@@ -2292,7 +2346,7 @@ impl VmGreenThread {
                 let read_val = chan_obj.read_value();
                 match read_val {
                     Some(read_val) => {
-                        let read_val = read_val.deep_copy(self);
+                        let read_val = read_val.into_value(self);
                         self.push(read_val)
                     } // TODO: use registers
                     None => {
@@ -2304,11 +2358,8 @@ impl VmGreenThread {
             Instr::ChannelWrite => {
                 let val = self.pop(); // TODO: use registers
                 let chan = self.pop(); // TODO: use registers
-                let chan = unsafe { chan.get_channel_mut(self) };
-
-                // TODO: write_barrier not necessary
-                self.write_barrier(chan.header_ptr(), val);
-                chan.write_value(val);
+                let chan = unsafe { chan.get_channel(self) };
+                chan.write_value(Message::new(val, self));
             }
             Instr::ConstructStruct(n) => self.construct_struct(n as usize),
             Instr::ConstructArray(n) => self.construct_array(n as usize),
@@ -2636,11 +2687,8 @@ impl VmGreenThread {
                 }
                 ObjectKind::Channel => {
                     let obj = unsafe { &*(header_ptr as *const ChannelObject) };
+                    // messages in the queue do not point into any heap
                     *batch = batch.saturating_sub(obj.nbytes());
-                    let data = obj.data.lock().unwrap();
-                    for elem in data.iter() {
-                        Self::mark(elem, &mut self.gray_stack, self.gc_visited);
-                    }
                 }
             }
         }
